@@ -21,19 +21,31 @@ MANIFEST = dict(
          'no other such line and end with a newline gives the texts back, a preamble stays with the first spec '
          '(stdin_split*); the witness of defect D14 (the substring inside an identifier or a doc) is kept in one piece by the '
          'repaired code (stdin_split_regression); a doc-string line beginning with the word still cuts a text '
-         '(stdin_split_witness). Both models are tied '
+         '(stdin_split_witness). (D, PROVED) A model of the parser`s rule for documentation strings (`docstring : STRING`: '
+         'split at newlines, rstrip every line, join; `isSpace` = what str.rstrip removes): white space that is not a line '
+         'break appended to ANY lines of ANY doc text is not seen (doc_trailing_ws, doc_trailing_ws_text); the result`s lines '
+         'are the stripped lines, none ends in white space, the rule is idempotent (doc_clean_lines, doc_clean_no_trailing, '
+         'doc_clean_idem); trimming only the end of the text is a different function (doc_last_line_only_witness). '
+         'The models are tied '
          'to the code by a translator (indent unit, continuation rule, lexer states and rules, the grammar`s NEWLINE '
-         'productions, the split pattern: pinned by `decide`) and by differential runs of the REAL lexer and of the REAL stdin '
-         'branch of cli.main against the compiled models (suites fe.lex: generated specs under reference and noisy layouts, '
-         'damaged indentation, line soup; fe.stdin: keyword-heavy line soup and generated specs). '
+         'productions, the split pattern, the statement of the docstring rule: pinned by `decide`) and by differential runs of the '
+         'REAL lexer, of the REAL stdin branch of cli.main and of the REAL p_docstring_string against the compiled models '
+         '(suites fe.lex: generated specs under reference and noisy layouts, damaged indentation, line soup; fe.stdin: '
+         'keyword-heavy line soup and generated specs; fe.doctrim: random doc texts with 23 kinds of white space and '
+         'look-alikes, every code point below U+3100; the proved statement is also evaluated on the real rule). '
          '(B, TESTED, not proved) File order, definition order, splitting a namespace over files, comment / blank-line / '
-         'trailing-whitespace insertion at every line boundary, continuation-line variants and stdin delivery are exercised on '
+         'trailing-whitespace insertion at every line boundary, white space at the end of the lines INSIDE multi-line '
+         'documentation strings (one line at a time and all at once, empty paragraph-separator lines included), '
+         'continuation-line variants and stdin delivery are exercised on '
          'the real compiler: the canonical signature of the Api (harness/apisig.py) and the bytes every built-in backend '
          'writes are compared between a reference layout and the variants (suite layout).',
     note='Trusted: Lean kernel, translator, the Python scanner that abstracts a text into line records (compared with the real '
          'lexer on every input), the spec generator and its renderer, apisig (what it does not dump is not compared: AST '
          'paths / line numbers). Part B is differential testing: it can only find layout dependences in the models it '
-         'generates. Character-level tokenisation is not modelled (tokens are opaque except parentheses). `norm` (runs of '
+         'generates. Inside documentation strings only blanks and tabs are appended by part B (the lexer cuts string '
+         'values with str.splitlines, for which form feed etc. are line breaks: not judged); the lexer`s removal of the '
+         'block indentation from doc lines is not modelled (tested through part B only). '
+         'Character-level tokenisation is not modelled (tokens are opaque except parentheses). `norm` (runs of '
          'NEWLINE collapse, a leading run is dropped) is a statement about the grammar, pinned to the two NL productions and '
          'the two spec productions, not derived from the LALR tables.',
     technique='Lean 4 proof + translator + differential correspondence (parts A, C); differential testing of the real '
@@ -42,7 +54,9 @@ MANIFEST = dict(
 
 RULE = ('A (proof): lexer model theorems + fe.lex correspondence (0 disagreements required). '
         'B (testing): Api signature and backend bytes of every layout variant equal those of the reference layout. '
-        'C (proof + testing): stdin split theorems; Api received through stdin equals the Api received from files.')
+        'C (proof + testing): stdin split theorems; Api received through stdin equals the Api received from files. '
+        'D (proof + testing): doc-string rule theorems + fe.doctrim correspondence; the real rule gives the same text with '
+        'and without white space at the end of doc lines.')
 
 
 def run_corpus(ck):
@@ -60,6 +74,8 @@ def _replay_case(ck, case):
         fe_lex.replay_case(ck, case)
     elif case.get('suite') == 'layout':
         layout.replay_case(ck, case)
+    elif case.get('suite') == 'fe.doctrim':
+        fe_lex.replay_doctrim(ck, case)
 
 
 def _timed(ck, name, f, *a, **kw):
@@ -77,6 +93,8 @@ def run(ck):
     # part A: model correspondence + the proved statements evaluated on the real lexer
     _timed(ck, 'fe.lex', fe_lex.suite_fe_lex, ck)
     _timed(ck, 'fe.lex.layout', fe_lex.suite_lex_layout, ck)
+    # part D: the parser's rule for documentation strings (model correspondence + the proved statement on the real rule)
+    _timed(ck, 'fe.doctrim', fe_lex.suite_doctrim, ck)
     # part B: the layout / order oracle on the real compiler and backends (testing)
     _timed(ck, 'layout.seeds', layout.suite_seeds, ck)
     _timed(ck, 'layout', layout.suite_layout, ck, n_models=ck.scale(20, 150), n_layouts=ck.scale(12, 40), backends=None)
@@ -89,7 +107,7 @@ def run(ck):
         'namespace docs are kept in one file by the layouts (docs of several files concatenate in file order: documented)',
         'stdin: every file ends with a newline before concatenation',
     ])
-    ck.note('parts A and C are theorems about models tied to the code by correspondence; part B (suite layout) is '
+    ck.note('parts A, C and D are theorems about models tied to the code by correspondence; part B (suite layout) is '
             'differential testing of the real toolchain, not a proof')
     return ck.finish(level='proof+testing', rule=RULE)
 
